@@ -429,3 +429,58 @@ def native_site_average(seed=0):
             if not np.allclose(got2, 2.5 * got, rtol=1e-12, atol=1e-30):
                 bad.append(dict(what="Mesh.get_quantity_on_site is not linear in the edge quantity", vector=vec))
     return bad, n
+
+
+def run_convert_field(mutate=None, prefixes=("C20.",)):
+    """tdgl.em.convert_field with the pint model: between magnetic field H (current / length) and flux density B (mass / (current time^2)),
+    in ANY units of either kind (symbolic scale factors): B = mu0 H; same-kind conversions keep the physical value; conversions round-trip"""
+    EM = "tdgl.em"
+    mut = [(o, n) for (m, o, n) in (mutate or []) if m == EM]
+    rb = {"np": NPSol}
+    rb.update(BUILTINS)
+    L = instrument.load(EM, rebind=rb, mutate=mut, vc=vcm.VC())
+
+    def body():
+        c = sym.ctx()
+        c.record_prefixes = tuple(prefixes)
+        R = z3.Real
+        ureg, U = _registry()
+        hd = tuple(a - b for a, b in zip(pintmodel.CURRENT, pintmodel.LENGTH))
+        for nm in ("H1", "H2"):
+            ureg.user_unit(nm, hd, "scale_" + nm)
+        for nm in ("B1", "B2"):
+            ureg.user_unit(nm, pintmodel.FIELD, "scale_" + nm)
+        L.ns["pint"] = type("PintModule", (), {"Quantity": pintmodel.Q, "UnitRegistry": lambda *a, **k: ureg, "Unit": pintmodel.Q})
+        cf = L["convert_field"]
+        n = SI(z3.Int("n_values"))
+        assume(n >= 1)
+        arr = SymArray.input("field_values", (n,))
+        j = SI(FreshInt("j"))
+        assume(j >= 0, j < n)
+        mu0 = ureg.mu0
+        for old, new in (("H1", "H2"), ("H1", "B1"), ("B1", "H1"), ("B1", "B2")):
+            fac = SR(1) if old[0] == new[0] else (mu0 if old[0] == "H" else 1 / mu0)
+            so, sn = ureg.user[old], ureg.user[new]
+            for form in ("array with old_units", "quantity"):
+                val = arr if form == "array with old_units" else pintmodel.Q(arr, ureg(old).dims, so)
+                kw = dict(old_units=old) if form == "array with old_units" else {}
+                q = cf(val, new, ureg=ureg, **kw)
+                tag = f"{old}->{new},{form}"
+                isq = isinstance(q, pintmodel.Q)
+                check(f"C20.convert_field.result_is_in_the_requested_units[{tag}]", z3.BoolVal(isq and q.dims == ureg(new).dims) if not isq else sym.eq(q.scale, sn))
+                if isq:
+                    check(f"C20.convert_field.B_equals_mu0_H_in_SI[{tag}]", sym.eq(_si(q, j), SR.lift(arr.at(j)) * so * fac))
+                bare = cf(val, new, ureg=ureg, with_units=False, **kw)
+                check(f"C20.convert_field.without_units_returns_the_magnitude[{tag}]", z3.BoolVal(isinstance(bare, SymArray)) if not isinstance(bare, SymArray) or not isq
+                      else sym.eq(bare.at(j), q.mag.at(j)))
+                if isq:
+                    back = cf(q, old, ureg=ureg)
+                    check(f"C20.convert_field.round_trip[{tag}]", z3.BoolVal(isinstance(back, pintmodel.Q)) if not isinstance(back, pintmodel.Q)
+                          else z3.And(sym.eq(back.scale, so), sym.eq(back.mag.at(j), arr.at(j))))
+        try:
+            cf(arr, "B1", ureg=ureg)
+            check("C20.convert_field.bare_numbers_need_old_units", False, note="no error without old_units")
+        except ValueError:
+            check("C20.convert_field.bare_numbers_need_old_units", True)
+    obls, n_ = explore(body)
+    return dict(obls=obls, paths=n_, sources=[L.info()], consistent=sym.consistent())
